@@ -44,13 +44,23 @@ def _benign(only):
     return out
 
 
+def _write(results, benign, outname):
+    os.makedirs(os.path.join(VERIF, "selftest"), exist_ok=True)
+    name = outname or ("benign.json" if benign else "mutants.json")
+    with open(os.path.join(VERIF, "selftest", name), "w") as f:
+        json.dump({"repo_tree": runner.repo_tree_id(), "results": results}, f, indent=1)
+
+
 def main(argv):
     only = [a for a in argv if not a.startswith("--")]
     benign = "--benign" in argv
     runs = None
+    outname = None
     for a in argv:
         if a.startswith("--runs="):
             runs = a.split("=")[1]
+        if a.startswith("--out="):
+            outname = a.split("=")[1]
     results = []
     repo = os.environ.get("VERIF_REPO", "/repo")
     for (name, patch, props) in (_benign(only) if benign else _patches(only)):
@@ -88,11 +98,10 @@ def main(argv):
                     print("%-45s %s %-8s rc=%d %5.1fs %s" % (name, prop, "KILLED" if q.returncode == 1 and viol else "SURVIVED", q.returncode,
                                                           time.time() - t0, (sigs[0][:110] if sigs else "")))
                 sys.stdout.flush()
+            _write(results, benign, outname)     # incrementally: a long run cut short keeps what it has
         finally:
             shutil.rmtree(work, ignore_errors=True)
-    os.makedirs(os.path.join(VERIF, "selftest"), exist_ok=True)
-    with open(os.path.join(VERIF, "selftest", "benign.json" if benign else "mutants.json"), "w") as f:
-        json.dump({"repo_tree": runner.repo_tree_id(), "results": results}, f, indent=1)
+    _write(results, benign, outname)
     if benign:
         return 0 if all(r.get("quiet") for r in results) else 1
     return 0
